@@ -300,6 +300,9 @@ func (x *g) genUserTypes() {
 	if x.o.Profile == "validation" && x.chance(2, 3) {
 		x.genEdgeBoundsType()
 	}
+	if x.o.Profile == "validation" && x.chance(1, 2) {
+		x.genRequiredOnlyNested()
+	}
 	nres := 0
 	switch x.o.Profile {
 	case "views":
@@ -385,6 +388,39 @@ func (x *g) genNestedViewTypes() {
 	}
 	x.s.Types = append(x.s.Types, parent)
 	x.s.AddFeature("result-type", "multi-view", "nested-view-override", "nested-views-same-type")
+	if x.chance(1, 2) {
+		// a third level: result type attributes that follow one another in a view and hold result types themselves
+		pref := func() *spec.Type { return &spec.Type{Kind: spec.Ref, Ref: parent.Name} }
+		grand := &spec.UserType{Name: x.typeName("Grand"), Kind: "result", Def: &spec.Type{Kind: spec.Object}}
+		grand.Def.Attrs = []*spec.Attr{
+			{Name: "note", Type: &spec.Type{Kind: spec.String}},
+			{Name: "first", Type: pref()},
+			{Name: "next", Type: &spec.Type{Kind: spec.Ref, Ref: grand.Name}},
+			{Name: "second", Type: pref()},
+			{Name: "third", Type: ref()},
+		}
+		if x.chance(1, 2) {
+			grand.Def.Required = []string{"second"}
+		}
+		pv := []string{"", "tiny", "extended", "default"}
+		gv := func(name string, attrs ...string) *spec.View {
+			v := &spec.View{Name: name}
+			for _, a := range attrs {
+				va := spec.ViewAttr{Name: a}
+				if a != "note" {
+					va.View = pv[x.r.Intn(len(pv))]
+				}
+				v.Attrs = append(v.Attrs, va)
+			}
+			return v
+		}
+		grand.Views = []*spec.View{
+			gv("default", "note", "first", "next", "second", "third"),
+			gv("tiny", "third", "second", "next"),
+		}
+		x.s.Types = append(x.s.Types, grand)
+		x.s.AddFeature("nested-views-three-levels")
+	}
 }
 
 func (x *g) genAlias() *spec.UserType {
@@ -1133,6 +1169,35 @@ func (x *g) genDerivedType() {
 		x.s.AddFeature("reference")
 	}
 	d.Def = def
+}
+
+// genRequiredOnlyNested adds a user type whose ONLY validation is a required attribute and a wrapper that holds
+// it inside collections of collections: the validation code has to reach it through every level.
+func (x *g) genRequiredOnlyNested() {
+	ro := &spec.UserType{Name: x.typeName("ReqOnly"), Kind: "type", Def: &spec.Type{Kind: spec.Object}}
+	ro.Def.Attrs = []*spec.Attr{
+		{Name: "must", Type: &spec.Type{Kind: x.r.Pick(spec.Int, spec.String, spec.Float64, spec.UInt32)}},
+		{Name: "may", Type: &spec.Type{Kind: spec.String}},
+	}
+	ro.Def.Required = []string{"must"}
+	x.s.Types = append(x.s.Types, ro)
+	ul := func() *spec.Attr { return &spec.Attr{Type: &spec.Type{Kind: spec.Ref, Ref: ro.Name}} }
+	arr := func(e *spec.Attr) *spec.Attr { return &spec.Attr{Type: &spec.Type{Kind: spec.Array, Elem: e}} }
+	mp := func(e *spec.Attr) *spec.Attr {
+		return &spec.Attr{Type: &spec.Type{Kind: spec.Map, Key: &spec.Attr{Type: &spec.Type{Kind: spec.String}}, Elem: e}}
+	}
+	shapes := []*spec.Attr{mp(arr(ul())), mp(mp(ul())), arr(mp(ul())), arr(arr(ul())), mp(arr(mp(ul()))), arr(mp(arr(ul()))), mp(ul()), arr(ul())}
+	wrap := &spec.UserType{Name: x.typeName("Nest"), Kind: "type", Def: &spec.Type{Kind: spec.Object}}
+	perm := x.r.Perm(len(shapes))
+	for i, j := range perm[:x.r.Range(1, 2)] {
+		a := shapes[j]
+		a.Name = fmt.Sprintf("held%d", i+1)
+		wrap.Def.Attrs = append(wrap.Def.Attrs, a)
+	}
+	wrap.Def.Attrs = append(wrap.Def.Attrs, &spec.Attr{Name: "note", Type: &spec.Type{Kind: spec.String}})
+	x.s.Types = append(x.s.Types, wrap)
+	x.solo = append(x.solo, wrap.Name, wrap.Name)
+	x.s.AddFeature("required-only-in-nested-collections")
 }
 
 // genEdgeBoundsType adds a user type whose numeric bounds coincide with the limits of their Go types and whose length
